@@ -155,7 +155,9 @@ def case_mibdump(idx, rng, tier, res):
         health = {}
         for m in mods:
             r = rng.random()
-            health[m] = 'ok' if r < 0.7 else ('absent' if r < 0.82 else rng.choice(['synerr', 'unresolved', 'truncated']))
+            health[m] = 'ok' if r < 0.7 else ('absent' if r < 0.82 else rng.choice(['synerr', 'unresolved', 'truncated', 'oidloop']))
+            if health[m] == 'oidloop' and fmt == 'null':
+                health[m] = 'unresolved'    # the null generator resolves no OIDs: nothing to detect there
         requested = [mods[0]] if gname != 'two_roots' else mods[:2]
         alias = None
         for b in orch.BASE:
@@ -176,6 +178,9 @@ def case_mibdump(idx, rng, tier, res):
                 if rng.random() < 0.22]
         if fmt == 'json' and rng.random() < 0.25:
             opts.append('--build-index')
+        if rng.random() < 0.1:
+            opts.append('--debug=' + rng.choice(['all', 'compiler', 'reader,searcher,writer', 'parser,codegen,borrower']))
+            res.count('runs_with_debug_logging')
         borrowable = []
         if ext and rng.random() < 0.4:
             for m in mods:
@@ -256,9 +261,13 @@ def case_mibdump(idx, rng, tier, res):
             blocked = ('ignored',) if (any_bad_ and not ign) else ()
             if pre.get(m) == 'fresh' and '--rebuild' not in opts:
                 blocked += ('uptodate',)     # the borrowed copy is not newer than what is there
-            if health[m] == 'absent':
+            eff = health[m]
+            if eff == 'oidloop' and (('--no-dependencies' in opts and m not in requested) or
+                                     (pre.get(m) == 'fresh' and '--rebuild' not in opts)):
+                eff = 'ok'      # a defect only code generation can see, in a module that is not generated
+            if eff == 'absent':
                 ok = got in ('missing', 'borrowed') + blocked if m in borrowable else got == 'missing'
-            elif health[m] != 'ok':
+            elif eff != 'ok':
                 ok = got in ('failed', 'borrowed') + blocked if m in borrowable else got == 'failed'
             else:
                 ok = got in ('created', 'uptodate', 'ignored')
@@ -311,7 +320,7 @@ def orch_closure(mods, g, requested, health):
         if m in seen:
             continue
         seen.append(m)
-        if health.get(m) == 'ok':   # imports are followed once the module is parsed and registered
+        if health.get(m) in ('ok', 'oidloop'):   # imports are followed once the module is parsed and registered
             q.extend(g.get(m, []))
     return seen
 
